@@ -370,7 +370,7 @@ def view_history_cases(rng, n_random, full_product):
         for ln in lens:
             wins = [(None, None)] + [(a, b) for a in range(ln + 1) for b in range(a, ln + 1)]
             if not full_product:
-                wins = [(None, None), (1, 3), (0, 2), (1, 4), (2, 2), (1, 2)]
+                wins = [(None, None), (1, 3), (0, 2), (1, 4), (2, 2), (1, 2), (0, 0), (0, 1)]
             for w0, w1 in wins:
                 for o1 in ops:
                     for o2 in ops:
